@@ -1,6 +1,6 @@
 """C14 — compaction preserves observable contents (partial)."""
 from sa import names as N
-from sa.prog import Site, Slice, TERM, callee_of, op_local, op_place, place_fields, outcome_arms, in_arm, lock_acquisitions
+from sa.prog import Site, Slice, TERM, callee_of, op_local, op_place, place_fields, outcome_arms, in_arm, lock_acquisitions, ok_sites
 from sa.rules.common import is_test_or_bench
 
 EXPLANATION = ("Decides: (a) Index::compact refuses before touching anything — the safety check dominates, on its success arm, the first "
@@ -168,7 +168,13 @@ def r14c(ctx, P):
         if t["k"] == "switch" and any("ForLoop" in m for m in t.get("macros", [])) and hdr is not None and start is None:
             vals = dict(zip(t["values"], t["targets"]))
             start = vals.get(1)
-    if not ctx.anchor(rid, start, "loop over Schema::resolved_fields() in ensure_compact_safe"):
+    if start is None:
+        ps = _r14c_adapter_paths(ctx, P, f, rid, RF, kinds)
+        if ps is None:
+            ctx.anchor(rid, None, "loop over Schema::resolved_fields() in ensure_compact_safe (for loop, or find/any/position with a "
+                                  "closure whose `true` ends in the refusal)")
+            return
+        _r14c_decide(ctx, rid, f, ps, kinds)
         return
     from sa.rules.C15 import error_origins
     refuse_blocks = {s.b for s in error_origins(f)}
@@ -196,6 +202,96 @@ def r14c(ctx, P):
             return ("other", ".".join(e["f"] for e in fl))
         return None
     ps = boolpaths.paths(f, start, end_kind, atom_of_place, discr_variants=lambda a: kinds)
+    _r14c_decide(ctx, rid, f, ps, kinds)
+
+
+def _r14c_atom(RF):
+    def atom_of_place(pl):
+        fl = [e for e in pl["p"] if isinstance(e, dict) and "f" in e]
+        if len(fl) >= 1 and fl[-1].get("of") == RF and fl[-1]["f"] in ("indexed", "fast", "stored", "kind"):
+            return ("flag", fl[-1]["f"])
+        if fl:
+            return ("other", ".".join(e["f"] for e in fl))
+        return None
+    return atom_of_place
+
+
+def _r14c_adapter_paths(ctx, P, f, rid, RF, kinds):
+    """Iterator form of the guard: `schema.resolved_fields().into_iter().find(|f| <cond>)` (or any / position) whose hit is
+    turned into the refusal.  The decision table is the closure's: returning true = refuse, false = next field."""
+    from sa import boolpaths
+    from sa.prog import outcome_arms, Site
+    from sa.rules.C15 import error_origins
+    sl = Slice(f, through_all_calls=True)
+    for b, t in f.calls():
+        cal = callee_of(t)
+        if not cal.endswith(("Iterator::find", "Iterator::any", "Iterator::position")) or len(t["args"]) < 2:
+            continue
+        if not any(x[0] == "call" and callee_of(x[2]).endswith("Schema::resolved_fields") for x in sl.sources(t["args"][0])):
+            continue
+        clo = None
+        for y in sl.sources(t["args"][1]):
+            if y[0] == "agg" and y[3].get("closure") and P.fn(y[3]["closure"]) is not None:
+                clo = P.fn(y[3]["closure"])
+        if clo is None:
+            continue
+        # the hit must end in the refusal: the Some / true arm cannot reach a success return
+        refuse_blocks = {s.b for s in error_origins(f)}
+        hit_blocks = []
+        if cal.endswith("Iterator::any"):
+            for sb in f.reachable():
+                tt = f.blocks[sb]["term"]
+                if tt["k"] == "switch" and any(x[0] == "call" and x[1] == b for x in Slice(f).sources(tt["on"])):
+                    vals = dict(zip(tt["values"], tt["targets"]))
+                    hit_blocks.append(vals.get(1, tt.get("otherwise")) if 1 in vals or 0 in vals else None)
+                    if 1 not in vals and 0 in vals:
+                        hit_blocks[-1] = tt.get("otherwise")
+        else:
+            hit_blocks = outcome_arms(f, Site(f, b))["ok"]
+        hit_blocks = [h for h in hit_blocks if h is not None]
+        if not hit_blocks:
+            continue
+        ok_ret = {s.b for s in ok_sites(f)}
+        refuses = True
+        for h in hit_blocks:
+            reach = f.reachable_from(h) if hasattr(f, "reachable_from") else None
+            if reach is None:
+                reach, st = set(), [h]
+                while st:
+                    x = st.pop()
+                    if x in reach:
+                        continue
+                    reach.add(x)
+                    st.extend(f.succ(x))
+            if reach & ok_ret or not (reach & refuse_blocks):
+                refuses = False
+        ctx.saw(clo)
+        ctx.ob(rid, "%s:ensure_compact_safe:hit-is-refused" % rid, refuses,
+               "a field found by the guard's %s(..) ends in the refusal (no success return reachable from the hit arm)" % cal.rsplit("::", 1)[1]
+               if refuses else "a field found by the guard's %s(..) does not always end in the refusal" % cal.rsplit("::", 1)[1],
+               "%s:%s" % (f.file, t.get("line", f.line)))
+        raw = boolpaths.paths(clo, 0, lambda blk: None, _r14c_atom(RF), discr_variants=lambda a: kinds, track_return=True)
+        out = []
+        for pth in raw:
+            r = pth.ret
+            if pth.end[0] != "return":
+                out.append(boolpaths.Path(pth.cons, ("next", pth.end[1]), True))
+            elif r is not None and r[0] == "const":
+                out.append(boolpaths.Path(pth.cons, ("refuse" if r[1] else "next", pth.end[1]), pth.opaque))
+            elif r is not None and r[0] == "atom":
+                for val in (True, False):
+                    if pth.cons.get(r[1], val) != val:
+                        continue
+                    c2 = dict(pth.cons)
+                    c2[r[1]] = val
+                    out.append(boolpaths.Path(c2, ("refuse" if (val != r[2]) else "next", pth.end[1]), pth.opaque))
+            else:
+                out.append(boolpaths.Path(pth.cons, ("next", pth.end[1]), True))
+        return out
+    return None
+
+
+def _r14c_decide(ctx, rid, f, ps, kinds):
     ctx.floor(rid, len(ps), 2, "paths through the guard's loop body")
     n = 0
     bad = []
@@ -238,14 +334,35 @@ def r14d(ctx, P):
     if not ctx.anchor(rid, comp, "Index::compact"):
         return
     n = 0
+    GET_DOC = "searchlite_core::index::segment::SegmentReader::get_doc"
     for g in [comp] + P.closures_of(comp):
         sl = Slice(g)
         for b, t in g.calls():
-            if not callee_of(t).endswith("SegmentReader::get_doc"):
+            cal = callee_of(t)
+            direct = cal.endswith("SegmentReader::get_doc")
+            via_helper = (not direct) and cal in P.fns and P.fns[cal].crate == "searchlite_core" and P.fns[cal].vis != "Public" and \
+                P.fns[cal].file == comp.file and GET_DOC in P.reach(cal)
+            if not (direct or via_helper):
                 continue
             n += 1
             ctx.saw(g)
             extra = []
+            # iterator form: the stages in front of this closure may only drop deleted documents
+            if g.kind == "closure":
+                from sa.rules.common import adapter_calls_with_closure, chain_filters, is_not_deleted_filter
+                for (par, ab, at) in adapter_calls_with_closure(P, g):
+                    for (kind, fb, clos) in chain_filters(P, par, at["args"][0]):
+                        if not (kind == "filter" and clos and all(is_not_deleted_filter(P, h) for h in clos)):
+                            extra.append((Site(par, fb), ["Iterator::" + kind]))
+            if via_helper:
+                h = P.fns[cal]
+                hs = Slice(h)
+                for hb, ht in h.calls():
+                    if callee_of(ht) == GET_DOC:
+                        for (a, succ) in h.control_deps_transitive(hb):
+                            ta = h.blocks[a]["term"]
+                            if ta["k"] == "switch" and not any("QuestionMark" in m for m in (ta.get("macros") or [])):
+                                extra.append((Site(h, a), [callee_of(x[2]) for x in hs.sources(ta["on"]) if x[0] == "call"]))
             for (a, succ) in g.control_deps_transitive(b):
                 ta = g.blocks[a]["term"]
                 if ta["k"] != "switch":
